@@ -128,7 +128,11 @@ func serializeAttrs(pc *PrintCtx, kvps Attrs) (err error) { //nolint:revive
 	inGroupedMode := pc.inGroupedMode
 
 	if pc.dedupeAttrs {
-		slices.SortFunc(kvps, func(a, b Attr) int {
+		// sort and de-duplicate a private copy: the slice may be shared (a
+		// Group's members, the caller's Attrs passed to WriteThru), and the
+		// sort must be stable for "the last occurrence of a key wins".
+		kvps = slices.Clone(kvps)
+		slices.SortStableFunc(kvps, func(a, b Attr) int {
 			if a == nil {
 				if b == nil {
 					return 0
